@@ -21,6 +21,7 @@ def run(ctx, crate):
     rule_duration_fields(ctx, crate)
     rule_human_duration_forms_agree(ctx, crate)
     rule_floatcount_one_source(ctx, crate)
+    rule_hduration_exact_quotient(ctx, crate)
 
 
 def rule_count_exact(ctx, crate, rule="R-COUNT-EXACT"):
@@ -409,3 +410,34 @@ def rule_floatcount_one_source(ctx, crate, rule="R-FLOATCOUNT-ONE-SOURCE"):
                       "at precision 0 the digits are %s instead of the formatted (rounded) string: `{:.0}` of 1234.7 prints 1,234 where the standard formatter prints 1235"
                       % ("the value's truncation" if trunc else "not the formatted string"), cfg)
     ctx.floor(rule, m, 1, cfg, "digit iterations under split_once = None")
+
+
+LOSSY_DURATION = (r"std::time::Duration::(div_duration_f64|div_duration_f32|as_secs_f32|as_nanos|as_micros|subsec_nanos|subsec_micros|mul_f32|div_f32)",
+                  r"core::time::Duration::(div_duration_f64|div_duration_f32|as_secs_f32|as_nanos|as_micros)")
+
+
+def rule_hduration_exact_quotient(ctx, crate, rule="R-HDURATION-EXACT-QUOTIENT"):
+    """"nearest count ... we go from n+1 units to n units exactly at (n + 1/2) units", for every Duration: the count is the rounded
+    quotient of the duration by the unit. A necessary condition for the half-unit boundaries to fall where they should is that
+    the two operands reach the division *exactly* for whole-second durations: `Duration::as_secs_f64` is exact up to 2^53 s
+    (285 million years). Conversions through nanoseconds (`div_duration_f64`, `as_nanos() as f64`) hold whole nanoseconds
+    only up to 2^53 ns = 104 days, through f32 up to 2^24: beyond that an exact n.5 lands one ulp below the boundary and is
+    rounded down ("9359 years" for 9359.5 years). Decided: the value handed to `f64::round` is a quotient whose operands come
+    from `as_secs_f64` (or integer seconds), and no lossy conversion is in its slice; not the rounding itself."""
+    cfg = crate.config
+    b = K.find_one(ctx, crate, rule, r"<format::HumanDuration as std::fmt::Display>::fmt")
+    if not b:
+        return
+    rounds = [c for c in b.calls(r"std::f64::<impl f64>::(round|round_ties_even|floor|ceil|trunc)", r"core::f64::<impl f64>::(round|floor|ceil|trunc)")]
+    if not rounds:
+        ctx.lost(rule, cfg, "HumanDuration::fmt no longer rounds an f64 quotient")
+        return
+    for k, c in enumerate(rounds):
+        sl = b.slice_args(c, [0])
+        lossy = sorted({K.meth(x.path) for x in sl.calls if x.matches(*LOSSY_DURATION)})
+        f32 = [a for a in sl.atoms if a[0] == "cast" and "f32" in str(a)] if any(a[0] == "cast" for a in sl.atoms) else []
+        exact = sl.has_call(r"std::time::Duration::as_secs_f64", r"core::time::Duration::as_secs_f64", r"std::time::Duration::as_secs", r"core::time::Duration::as_secs")
+        ctx.check(exact and not lossy and not f32, rule, "quotient-of-seconds#%d" % k, b.name, c.loc(),
+                  "the rounded quotient is formed from the durations in seconds as f64 (exact for whole seconds up to 2^53 s)",
+                  "the count is rounded from a quotient formed through a lossy conversion (%s): whole nanoseconds fit an f64 only up to 104 days, so exact half-unit "
+                  "durations above that can land one ulp below n.5 and round down" % (", ".join(lossy) or ("f32" if f32 else "no as_secs_f64 operand")), cfg)
